@@ -820,16 +820,18 @@ func corpusCases(dir string) []tcase {
 
 // ---------------------------------------------------------------- correspondence
 
-// corr writes, per case line:  <mask> <obsTop> <obs_1> ... <obs_m>   (cases.txt)
-// and the implementation's verdict 0/1 for <mask>                     (impl.txt)
-// where obs_j = accept(T \ G_j) for the j-th clause of the model (clauses file: one
-// decimal mask per line, produced by the extracted model).
+// corr writes cases.txt for the extracted model and impl.txt with the implementation's
+// answers, line by line:
+//
+//	T <bits>   one text: bits[j] = accept(T \ G_j) for the j-th clause of the model's family
+//	           (clauses file: one mask per line, printed by the extracted model); impl: "T"
+//	M <mask>   impl: accept(mask) as 0/1; the model predicts it from the last T line
 func corr(args []string) {
 	fs := flag.NewFlagSet("corr", flag.ExitOnError)
 	out := fs.String("out", "", "output directory")
 	clausesFile := fs.String("clauses", "", "file with the model's guard clauses (one mask per line)")
 	n := fs.Int("n", 300, "texts")
-	per := fs.Int("per", 24, "option sets per text")
+	per := fs.Int("per", 24, "random option sets per text")
 	full := fs.Int("full", 0, "texts evaluated on all 2^15 option sets")
 	corpus := fs.String("corpus", "", "corpus directory")
 	fs.Parse(args)
@@ -850,33 +852,44 @@ func corr(args []string) {
 	fx := loadFixtures()
 	lines := prepare(fx)
 	r := rng.FromEnv(151515)
-	total, nontrivial := 0, 0
-	bit := func(v int) int {
-		if v == vAccept {
-			return 1
-		}
-		return 0
-	}
+	total, nontrivial, evals := 0, 0, 0
 	one := func(c tcase, all bool) {
 		text := hx.Dec(c.Text)
-		obs := make([]string, 0, len(clauses)+1)
-		obs = append(obs, fmt.Sprint(bit(accept(text, top))))
+		cache := map[int]bool{}
+		acc := func(mask int) bool {
+			if v, ok := cache[mask]; ok {
+				return v
+			}
+			evals++
+			v := accept(text, mask) == vAccept
+			cache[mask] = v
+			return v
+		}
+		bits := make([]byte, len(clauses))
 		differ := false
-		for _, g := range clauses {
-			o := bit(accept(text, top&^g))
-			if fmt.Sprint(o) != obs[0] {
+		for j, g := range clauses {
+			bits[j] = '0'
+			if acc(top &^ g) {
+				bits[j] = '1'
+			}
+			if bits[j] != bits[0] {
 				differ = true
 			}
-			obs = append(obs, fmt.Sprint(o))
 		}
 		if differ {
 			nontrivial++
 		}
-		obsStr := strings.Join(obs, " ")
+		cases.Printf("T %s\n", bits)
+		impl.Printf("T\n")
+		texts.Printf("%s %s\n", c.Text, hx.Enc(c.Src))
 		emit := func(mask int) {
-			cases.Printf("%d %s\n", mask, obsStr)
-			impl.Printf("%d\n", bit(accept(text, mask)))
-			texts.Printf("%s\n", c.Text)
+			cases.Printf("M %d\n", mask)
+			if acc(mask) {
+				impl.Printf("1\n")
+			} else {
+				impl.Printf("0\n")
+			}
+			texts.Printf("-\n")
 			total++
 		}
 		if all {
@@ -887,11 +900,13 @@ func corr(args []string) {
 		}
 		emit(0)
 		emit(top)
-		// a chain and random sets, biased to few flags off
 		mask := 0
 		for _, f := range perm(r) {
 			mask |= 1 << f
 			emit(mask)
+		}
+		for f := 0; f < nflags; f++ {
+			emit(1 << f)
 		}
 		for q := 0; q < *per; q++ {
 			m := int(r.U64() & top)
@@ -913,7 +928,7 @@ func corr(args []string) {
 	cases.Close()
 	impl.Close()
 	texts.Close()
-	fmt.Printf("{\"cases\":%d,\"texts_where_options_matter\":%d,\"clauses\":%d}\n", total, nontrivial, len(clauses))
+	fmt.Printf("{\"cases\":%d,\"texts_where_options_matter\":%d,\"clauses\":%d,\"evaluations\":%d}\n", total, nontrivial, len(clauses), evals)
 }
 
 // ---------------------------------------------------------------- replay
